@@ -1,6 +1,7 @@
 (* Reader.v — model of ArchiveReader, BlocksToFileReader (mla/src/lib.rs:1039-1296) and
    helpers::linear_extract, generic over the top layer stream.  With the D12 (checked footer
-   position) and D14 (loop instead of recursion: same results) repairs.  Definitions only. *)
+   position), D14 (loop instead of recursion: same results) and C06-ZLB (an empty FileContent
+   block is stepped over instead of being reported as Ok(0)) repairs.  Definitions only. *)
 From MLA Require Import Base Stream Blocks.
 Open Scope N_scope.
 
@@ -132,9 +133,27 @@ Section Reader.
     | (s1, Crash c) => (bset b s1 (b_mode b), Crash c)
     end.
 
-  (* Read::read; the skipping of foreign blocks is a loop (fuel: one step per offset) *)
-  Fixpoint bread_ready (fuel : nat) (b : bstate) (n : N) : bstate * res bytes :=
-    match parse_block (b_src b) with
+  (* ArchiveFileBlock::from, repeated over the empty FileContent blocks of the file being
+     read: `read` does `continue` on them in state Ready (C06-ZLB repair: an empty block is
+     not the end of the file), so the next thing it looks at is the next block of the stream.
+     zf bounds the number of consecutive empty blocks stepped over (each consumes 17 bytes of
+     the stream, none of the offsets). *)
+  Fixpoint next_block (zf : nat) (id : N) (s : st S) : st S * res pblock :=
+    match parse_block s with
+    | (s1, Ok (PContent i l)) =>
+      if (i =? id) && (l =? 0) then
+        match zf with
+        | O => (s1, Err EFuel)
+        | Datatypes.S zf' => next_block zf' id s1
+        end
+      else (s1, Ok (PContent i l))
+    | r => r
+    end.
+
+  (* Read::read; the skipping of foreign blocks is a loop (fuel: one step per offset); zf: see
+     next_block (the same bound for every run) *)
+  Fixpoint bread_ready (fuel zf : nat) (b : bstate) (n : N) : bstate * res bytes :=
+    match next_block zf (b_id b) (b_src b) with
     | (s1, Ok pb) =>
       let b1 := bset b s1 BReady in
       let skip :=
@@ -142,7 +161,7 @@ Section Reader.
         | O => (b1, Err EFuel)
         | Datatypes.S fuel' =>
           match bmove b1 with
-          | (b2, Ok _) => bread_ready fuel' b2 n
+          | (b2, Ok _) => bread_ready fuel' zf b2 n
           | (b2, Err e) => (b2, Err e)
           | (b2, Crash c) => (b2, Crash c)
           end
@@ -157,11 +176,11 @@ Section Reader.
     | (s1, Crash c) => (bset b s1 BReady, Crash c)
     end.
 
-  Definition bread (b : bstate) (n : N) : bstate * res bytes :=
+  Definition bread (zf : nat) (b : bstate) (n : N) : bstate * res bytes :=
     match b_mode b with
     | BFinish => (b, Ok [])
     | BInFile rem => bread_data b (b_src b) rem n
-    | BReady => bread_ready (Datatypes.S (length (b_offs b))) b n
+    | BReady => bread_ready (Datatypes.S (length (b_offs b))) zf b n
     end.
 
   (* ---------- helpers::linear_extract ---------- *)
